@@ -6,8 +6,8 @@ for d in seeded/C*/; do
   id=$(basename $d); pid=$(echo $id | cut -c1-3)
   props="$pid"
   [ -f $d/also ] && props="$props $(cat $d/also)"
-  if ! git -C /repo apply --check $d/patch.diff 2>/dev/null; then echo "$id: PATCH-DOES-NOT-APPLY" >> seeded/RESULTS.txt; continue; fi
-  git -C /repo apply $d/patch.diff
+  if ! git -C /repo apply --check /verif/$d/patch.diff 2>/dev/null; then echo "$id: PATCH-DOES-NOT-APPLY" >> seeded/RESULTS.txt; continue; fi
+  git -C /repo apply /verif/$d/patch.diff
   for p in $props; do
     out=$(./check $p --no-evidence --case-timeout 240 2>&1)
     code=$?
